@@ -16,6 +16,17 @@ import (
 //	gvar      `rux.SetGlobalVar` between registrations: the SAME pattern string with a plain `{name}` is registered
 //	          before and after the variable (a new one, or num/any/all) got a (new) regex; other patterns use the
 //	          name too. C02: every route keeps the regex that was in force when it was registered.
+//	enc       routers with UseEncodedPath (mask bit 128): variable segments with percent-escapes (%20, %2F, %25, UTF-8),
+//	          through ServeHTTP (the handler sees c.Params) and QuickMatch. C02: the values are the substrings of the
+//	          (escaped) path the router matched.
+//	hist      caching routers with HandleMethodNotAllowed and/or HandleFallbackRoute, '/*' routes for SOME methods only,
+//	          dynamic routes for GET only; histories of several requests for the SAME path under different methods
+//	          (HEAD after GET, GET after HEAD, POST/OPTIONS after either, after a fallback answer). C06/C07: the answer
+//	          depends on the table and the options, not on the requests served before.
+//	rereg     `rereg`: the same *rux.Route value is given to AddRoute a second time (refused for routes with variables),
+//	          then lookups that match the accepted definition. C13: no panic, same answers.
+//	long      (rcache) request paths of 490-600 bytes around the key lengths 512/513, repeated, with `ckeys` after each;
+//	          a 5000 byte path at the end. C14: the resolved request is the most recent cache entry.
 //	optonly   dynamic routes WITHOUT variables (only optional parts: `/blog[/index]`, `/docs/about[.html]`,
 //	          `/a[/b[/c]]`), next to a static route on one of their instances and ordinary routes. C07/C02: their
 //	          params map is the same (empty, non-nil) on cache hits and misses.
@@ -118,13 +129,20 @@ func raRegLine(r *Rand, g genRoute) string {
 
 // raHeader: the `new` op of a case as the main generator draws it (no intercept path).
 func (e routeEngine) raHeader(r *Rand, stream string) (string, string) {
-	mask := r.Intn(128) &^ 8
+	return e.raHeaderWith(r, stream, 0)
+}
+
+// raHeaderWith: as raHeader, with the given option bits switched on (8 = caching, also for the engine route).
+func (e routeEngine) raHeaderWith(r *Rand, stream string, force int) (string, string) {
+	mask := r.Intn(128)&^8 | force
 	cap := 0
 	tag := stream
 	if e.name == "rcache" {
 		mask |= 8
 		cap = r.PickInt([]int{1, 1, 2, 2, 3, 4, 1000, 0})
 		tag = "cache-" + stream
+	} else if force&8 != 0 {
+		cap = r.PickInt([]int{1, 2, 2, 3, 4, 1000})
 	}
 	return fmt.Sprintf("new %d %d -", mask, cap), tag
 }
@@ -188,13 +206,21 @@ func raOrdinary(r *Rand, id int, shared []string) (genRoute, bool) {
 }
 
 func (e routeEngine) raGen(r *Rand, tier string) (Case, bool) {
-	switch r.Intn(16) {
-	case 0:
+	switch x := r.Intn(48); { // overlap, gvar, optonly: 1 case in 16 each; enc, hist, rereg: 1 in 24; long: 1 in 24 (rcache)
+	case x < 3:
 		return e.raGenOverlap(r, tier), true
-	case 1:
+	case x < 6:
 		return e.raGenGvar(r, tier), true
-	case 2:
+	case x < 9:
 		return e.raGenOptOnly(r, tier), true
+	case x < 11:
+		return e.raGenEnc(r, tier), true
+	case x < 13:
+		return e.raGenHist(r, tier), true
+	case x < 15:
+		return e.raGenRereg(r, tier), true
+	case x < 17 && e.name == "rcache":
+		return e.raGenLong(r, tier), true
 	}
 	return Case{}, false
 }
@@ -462,16 +488,16 @@ func raCorpus(engine string) []Case {
 	}
 	switch engine {
 	case "route":
-		return []Case{overlap("new 0 0 -"), gv("new 0 0 -"), gv("new 4 0 -")}
+		return append([]Case{overlap("new 0 0 -"), gv("new 0 0 -"), gv("new 4 0 -")}, raCorpus2(engine)...)
 	case "rcache":
-		return []Case{
+		return append([]Case{
 			// dynamic routes without variables: the params map of a hit is the one of a miss (empty, not nil)
 			{Ops: []string{"new 8 3 -", regOp(1, nil, "/blog[/index]", false), regOp(2, nil, "/docs/about[.html]", false), regOp(3, nil, "/users/{id}", false), regOp(4, nil, "/posts[/{id}]", false),
 				sv(g, "/users/7"), sv(g, "/blog/index"), sv(g, "/blog/index"), q(g, "/blog/index"), sv(g, "/docs/about.html"), sv("HEAD", "/docs/about.html"), q(g, "/posts"), q(g, "/posts"),
 				q(g, "/blog"), q(g, "/blog"), sv(g, "/blog"), "ckeys"}},
 			{Ops: []string{"new 8 1 -", regOpMut(1, nil, "/blog[/index]"), sv(g, "/blog/index"), sv(g, "/blog/index"), q(g, "/blog/index"), sv(g, "/blog"), sv(g, "/blog/index"), sv(g, "/blog/index"), "ckeys"}},
 			overlap("new 8 2 -"), gv("new 8 3 -"),
-		}
+		}, raCorpus2(engine)...)
 	}
-	return nil
+	return raCorpus2(engine)
 }
